@@ -50,6 +50,25 @@ MUTANTS = {
          "                && rc < RC_FAILED && t[i].rc == 0)\n                rc = RC_FAILED;"),
         ("marker-only-with-S", "src/pdsh/dsh.c", "    if (opt->kill_on_fail || opt->ret_remote_rc)\n        opt->getstat", "    if (opt->ret_remote_rc)\n        opt->getstat"),
         ("S-with-k-returns-0", "src/pdsh/dsh.c", "    if (opt->ret_remote_rc) {\n        for (i = 0; t[i].host", "    if (opt->ret_remote_rc && !opt->kill_on_fail) {\n        for (i = 0; t[i].host"),
+        # round 2b: refusal paths
+        ("new-exit-path", "src/pdsh/opt.c", "        case 'N':\n            opt->labels = false;",
+         "        case 'N':\n            if (opt->fanout == 4242) errx (\"%p: no\\n\");\n            opt->labels = false;"),
+        ("errx-exits-2", "src/common/err.c", "    va_end(ap);\n    exit(1);\n}\n\nvoid out(", "    va_end(ap);\n    exit(2);\n}\n\nvoid out("),
+        ("usage-exits-0", "src/pdsh/opt.c", "    exit(1);\n}\n\n\nstatic void _show_version", "    exit(0);\n}\n\n\nstatic void _show_version"),
+        ("unknown-rcmd-exit-0", "src/pdsh/opt.c", "        if (rcmd_register_default_rcmd(opt->rcmd_name) < 0)\n            exit(1);",
+         "        if (rcmd_register_default_rcmd(opt->rcmd_name) < 0)\n            exit(0);"),
+        ("copy-access-failure-not-fatal", "src/pdsh/pcp_client.c", "            errx(\"%p: access: %s: %m\\n\", file);", "            err(\"%p: access: %s: %m\\n\", file);"),
+        ("marker-not-for-exec-default", "src/pdsh/dsh.c", "    if (pdsh_personality() == DSH && opt->getstat) {",
+         "    if (pdsh_personality() == DSH && opt->getstat && !(opt->rcmd_name && !strcmp (opt->rcmd_name, \"exec\"))) {"),
+        # round 2b: the -k paths (which statement ends the run, who is signalled)
+        ("k-no-midstream-check", "src/pdsh/dsh.c", "            if (a->kill_on_fail)\n                _die_if_signalled (a);", "            if (0)\n                _die_if_signalled (a);"),
+        ("k-midstream-threshold", "src/pdsh/dsh.c", "    if ((sig = (th->rc - 128)) <= 0)", "    if ((sig = (th->rc - 128)) < 0)"),
+        ("k-teardown-no-fwd-signal", "src/pdsh/dsh.c", "        _fwd_signal(SIGTERM);\n        errx(\"%p: terminating all processes\\n\");", "        errx(\"%p: terminating all processes\\n\");"),
+        ("k-midstream-no-fwd-signal", "src/pdsh/dsh.c", "    _fwd_signal (SIGTERM);\n    errx (\"%p: terminating all processes.\\n\");", "    errx (\"%p: terminating all processes.\\n\");"),
+        ("fwd-signal-skips-first", "src/pdsh/dsh.c", "    for (i = 0; t[i].host != NULL; i++) {\n        if (t[i].state == DSH_READING)", "    for (i = 1; t[i].host != NULL; i++) {\n        if (t[i].state == DSH_READING)"),
+        ("k-midstream-exit-0", "src/pdsh/dsh.c", "    errx (\"%p: terminating all processes.\\n\");", "    err (\"%p: terminating all processes.\\n\"); exit (0);"),
+        ("k-test-before-merge", "src/pdsh/dsh.c", "    rv = rcmd_destroy (a->rcmd);\n    if ((a->rc == 0) && (rv > 0))\n        a->rc = rv;\n",
+         "    if (a->kill_on_fail && ((a->state == DSH_FAILED) || (a->rc > 0))) { _fwd_signal(SIGTERM); errx(\"%p: terminating\\n\"); }\n    rv = rcmd_destroy (a->rcmd);\n    if ((a->rc == 0) && (rv > 0))\n        a->rc = rv;\n    if (1) goto out;\n"),
     ],
     "C18": [
         ("env-after-args", "src/pdsh/main.c", "    opt_env(&opt);\n", "",
@@ -88,6 +107,16 @@ MUTANTS = {
         ("second-R-ignored", "src/pdsh/opt.c", "        case 'R':\n            opt->rcmd_name = Strdup(optarg);",
          "        case 'R':\n            { static int seen_; if (seen_++) break; }\n            opt->rcmd_name = Strdup(optarg);"),
         ("octal-accepted", "src/pdsh/opt.c", "    n = strtol (val, &p, 10);", "    n = strtol (val, &p, 0);"),
+        # round 2b: settings that -q shows correctly but that are not in force where they are USED
+        ("connect-timeout-not-handed-on", "src/pdsh/dsh.c", "    connect_timeout = opt->connect_timeout;", "    connect_timeout = CONNECT_TIMEOUT;"),
+        ("connect-uses-command-timeout", "src/pdsh/dsh.c", "    connect_timeout = opt->connect_timeout;", "    connect_timeout = opt->command_timeout;"),
+        ("connect-timeout-never", "src/pdsh/dsh.c", "    if ((connect_timeout > 0) && (th->start != ((time_t) -1))) {", "    if (0 && (connect_timeout > 0) && (th->start != ((time_t) -1))) {"),
+        ("copy-uses-local-path", "src/pdsh/dsh.c", "        xstrcat(&cmd, opt->remote_program_path);\n        if (opt->recursive)\n            xstrcat(&cmd, \" -r\");\n        if (opt->preserve)\n            xstrcat(&cmd, \" -p\");\n        if (list_count(pcp_infiles) > 1)",
+         "        xstrcat(&cmd, opt->local_program_path);\n        if (opt->recursive)\n            xstrcat(&cmd, \" -r\");\n        if (opt->preserve)\n            xstrcat(&cmd, \" -p\");\n        if (list_count(pcp_infiles) > 1)"),
+        ("reverse-copy-uses-local-path", "src/pdsh/dsh.c", "        xstrcat(&cmd, opt->remote_program_path);\n\n        if (opt->recursive)",
+         "        xstrcat(&cmd, opt->local_program_path);\n\n        if (opt->recursive)"),
+        ("env-path-after-verify", "src/pdsh/opt.c", "                Free ((void **) &opt->remote_program_path);\n                opt->remote_program_path = Strdup(optarg);",
+         "                if (!getenv (\"PDSH_REMOTE_PDCP_PATH\")) { Free ((void **) &opt->remote_program_path);\n                opt->remote_program_path = Strdup(optarg); }"),
     ],
 }
 
